@@ -1,4 +1,5 @@
 // C14 — the std_portable.h twins of static_vector / static_string (own executable: same class names).
+#include "c14_large.hpp"
 #include "c14_static.hpp"
 #include <igris/container/std_portable.h>
 
@@ -13,5 +14,9 @@ namespace
         static constexpr bool has_ptr_len = true, has_clear = true, has_append = true, has_find_split = true, has_find = false; // find() const calls the non-const data(): cannot be instantiated
     };
 }
-MC_INIT { c14::register_all<Traits>(); }
+MC_INIT
+{
+    c14::register_all<Traits>();
+    c14::register_large<Traits>();
+}
 MC_MAIN
